@@ -43,6 +43,7 @@ type evidence struct {
 	rawFindings    int
 	consequences   int
 	syncedWrites   int
+	touches        uint64
 	twinLogDiffs   int
 	known          int
 	violations     int
@@ -138,6 +139,7 @@ func (e *evidence) add(rec *record) {
 		e.faults["syncpoint-runs"]++
 	}
 	e.syncedWrites += st.SyncedGlobalWrites
+	e.touches += st.Touches
 	failops, scribbles, handoff := 0, 0, false
 	perBackend := map[int]int{}
 	lastFailed := map[int]bool{}
@@ -336,6 +338,7 @@ func (e *evidence) write(path string) error {
 		"corpus_sources":                       len(d.corpus.progs),
 		"raw_findings":                         e.rawFindings,
 		"known_findings_matched":               e.known,
+		"race_detector":                        map[string]any{"tracked_package_level_variables": d.sites.RaceVars, "instrumented_access_sites": d.sites.TouchSites, "accesses_observed": e.touches, "exempt_packages": d.sites.RaceExemptPkgs},
 		"enumerated_strata": map[string]any{
 			"T1_reuse_pairs_on_one_spirv_backend": map[string]any{"programs": len(d.pairProgs), "ordered_pairs": len(d.pairProgs) * len(d.pairProgs), "executed": e.families["T1-reuse-pair"], "exhaustive": len(d.pairProgs) > 0 && e.families["T1-reuse-pair"] == len(d.pairProgs)*len(d.pairProgs)},
 			"T2_one_map_site_reversed_at_a_time":  map[string]any{"program_operation_site_triples_reached": len(d.siteJobs), "executed": e.families["T2-single-site"], "exhaustive": len(d.siteJobs) > 0 && e.families["T2-single-site"] == len(d.siteJobs)},
@@ -343,7 +346,7 @@ func (e *evidence) write(path string) error {
 		"package_state_writes_in_packages_with_sync_primitives_not_judged": e.syncedWrites,
 		"mismatches_attributed_to_a_reported_or_known_module_alteration":   e.consequences,
 		"twin_runs_with_identical_results_but_different_event_log":         e.twinLogDiffs,
-		"instrumentation": map[string]any{"yield_sites": d.sites.YieldSites, "map_sites": d.sites.MapSites, "package_level_variables_monitored": d.sites.Globals,
+		"instrumentation": map[string]any{"yield_sites": d.sites.YieldSites, "of_which_before_non_local_writes": d.sites.WriteYields, "map_sites": d.sites.MapSites, "package_level_variables_monitored": d.sites.Globals,
 			"sync_seams_redirected": d.sites.SyncSeams, "seam_audit_unowned_constructs": audit, "mode": mode, "packages": d.sites.Packages},
 		"components": map[string]any{
 			"real_code":    "all compiler packages of /repo's current working tree (wgsl lexer/parser/lowerer, ir passes and validator, spirv, msl, glsl, hlsl, dxil back ends), built from an instrumented scratch copy; public API only",
